@@ -118,6 +118,9 @@ Qed.
 (* ------------------------------------------------------------------------------------------ *)
 (** * simplify_clause *)
 
+Lemma map_repeat' : forall (f : Z -> core) x n, map f (repeat x n) = repeat (f x) n.
+Proof. induction n; cbn; congruence. Qed.
+
 Theorem s_simplify_spec : forall cl x, cl <> [] -> Forall nz cl ->
   s_simplify cl x = Some (k_equiv (clause_core cl) (clause_core (simplify_clause cl x))).
 Proof.
@@ -134,11 +137,11 @@ Proof.
     rewrite (or_move_to_front_spec ps (map lit_core cl)).
     + cbn [obind]. unfold moved.
       pose proof (moved_positions cl x [] 0) as Em. cbn [length app plus] in Em. fold ps in Em. rewrite Em.
-      assert (Hn : length ps = S (length ps - 1)) by (unfold ps; rewrite Ep; cbn; lia).
+      assert (Hn : exists n1, length ps = S n1) by (unfold ps; rewrite Ep; cbn; eauto).
+      destruct Hn as [n1 Hn]. rewrite Hn. replace (S n1 - 1) with n1 by lia.
       set (stripped := filter (fun y => negb (y =? x)%Z) cl).
-      rewrite map_app, map_repeat.
-      rewrite Hn at 1 2. rewrite s_reduce_n_spec. cbn [obind].
-      rewrite <- Hn. rewrite equiv_trans_equiv.
+      rewrite map_app, map_repeat'.
+      rewrite s_reduce_n_spec. cbn [obind]. rewrite equiv_trans_equiv.
       rewrite (clause_core_fold cl Hne).
       change (lit_core x :: map lit_core stripped) with (map lit_core (x :: stripped)).
       rewrite <- (clause_core_fold (x :: stripped)) by discriminate. reflexivity.
@@ -155,7 +158,7 @@ Lemma find_opp_some : forall x t i i2, find_opp x i t = Some i2 ->
 Proof.
   intros x t; induction t as [|y t IH]; intros i i2 H; cbn in H; [discriminate|].
   destruct (Z.eqb_spec (x + y) 0) as [E|E].
-  - inversion H; subst. exists [], t. split; [f_equal; lia|cbn; lia].
+  - inversion H; subst. exists [], t. replace y with (- x)%Z by lia. split; [reflexivity|cbn; lia].
   - apply IH in H as (B & C & -> & ->). exists (y :: B), C. split; [reflexivity|cbn; lia].
 Qed.
 
@@ -186,7 +189,7 @@ Proof.
   - lia.
   - subst y. contradiction.
   - subst y. exfalso. apply Eo. rewrite Z.opp_involutive. exact H1.
-  - eapply IH; eauto.
+  - exact (IH (S i) x H1 H2 Hx).
 Qed.
 
 Lemma remove_idx_mid : forall (A B : list Z) x, remove_idx (length A) (A ++ x :: B) = A ++ B.
@@ -195,3 +198,101 @@ Proof. induction A as [|a A IH]; intros; cbn; [reflexivity|]. rewrite IH. reflex
 Lemma s_and_r_equiv : forall a b, s_and_r (k_equiv a b) = Some (KImp b a).
 Proof. reflexivity. Qed.
 
+
+Lemma trivial_general : forall A B C x1, x1 <> 0%Z -> A ++ B ++ C <> [] ->
+  let cl := A ++ x1 :: B ++ (- x1)%Z :: C in
+  let i1 := length A in let i2 := length A + 1 + length B in
+  let p := lit_core (Z.abs x1) in
+  let rest := clause_core (remove_idx i1 (remove_idx i2 cl)) in
+  (let? mv := or_move_to_front [i1; i2] (map lit_core cl) in
+   let? pf := s_and_r mv in
+   if (x1 <? - x1)%Z then
+     let? pf' := s_imp_transitivity (s_or_assoc_r3 (k_neg p) p rest) pf in
+     s_mp pf' (s_or_l (s_dneg_elim p) rest)
+   else
+     let? pf' := s_imp_transitivity (s_or_assoc_r3 p (k_neg p) rest) pf in
+     s_mp pf' (s_or_l (s_imp_refl (k_neg p)) rest))
+  = Some (clause_core cl).
+Proof.
+  intros A B C x1 Hx Hne cl i1 i2 p rest.
+  assert (Hlits : if (x1 <? - x1)%Z
+                  then lit_core x1 = k_neg p /\ lit_core (- x1) = p
+                  else lit_core x1 = p /\ lit_core (- x1) = k_neg p).
+  { unfold p. destruct x1 as [|q|q]; [congruence| |]; cbn; auto. }
+  assert (Hrest : rest = clause_core (A ++ B ++ C)).
+  { unfold rest, i1, i2, cl.
+    replace (A ++ x1 :: B ++ (- x1)%Z :: C) with ((A ++ x1 :: B) ++ (- x1)%Z :: C) by (rewrite <- app_assoc; reflexivity).
+    replace (length A + 1 + length B) with (length (A ++ x1 :: B)) by (rewrite app_length; cbn; lia).
+    rewrite remove_idx_mid. rewrite <- app_assoc. cbn [app]. rewrite remove_idx_mid. reflexivity. }
+  assert (Hcl : cl <> []) by (unfold cl; destruct A; discriminate).
+  rewrite (or_move_to_front_spec [i1; i2] (map lit_core cl)).
+  - cbn [obind]. rewrite s_and_r_equiv. cbn [obind].
+    assert (Hm : moved [i1; i2] (map lit_core cl) = lit_core x1 :: lit_core (- x1) :: map lit_core (A ++ B ++ C)).
+    { unfold moved. cbn [moved_from]. rewrite Nat.sub_0_r. unfold cl, i1, i2.
+      rewrite map_app. cbn [map].
+      assert (HlA : length A = length (map lit_core A)) by (symmetry; apply map_length).
+      remember (map lit_core A) as LA. rewrite HlA.
+      rewrite nth_mid, remove_mid.
+      rewrite map_app. cbn [map]. rewrite app_assoc.
+      assert (HlB : length LA + 1 + length B - 1 = length (LA ++ map lit_core B))
+        by (rewrite app_length, map_length; lia).
+      rewrite HlB. rewrite nth_mid, remove_mid. subst LA. rewrite <- app_assoc, !map_app. reflexivity. }
+    rewrite Hm.
+    assert (Hf : fold1 k_or (lit_core x1 :: lit_core (- x1) :: map lit_core (A ++ B ++ C))
+                 = k_or (lit_core x1) (k_or (lit_core (- x1)) rest)).
+    { rewrite Hrest. rewrite (clause_core_fold (A ++ B ++ C) Hne).
+      rewrite fold1_cons_ne by discriminate. rewrite fold1_cons_ne; [reflexivity|].
+      destruct (A ++ B ++ C); [congruence|discriminate]. }
+    rewrite Hf. rewrite <- (clause_core_fold cl Hcl).
+    destruct (x1 <? - x1)%Z; destruct Hlits as [L1 L2]; rewrite L1, L2.
+    + unfold s_or_assoc_r3. rewrite s_trans_refl. cbn [obind].
+      unfold s_mp, s_or_l, s_dneg_elim, nn, k_or. rewrite core_eqb_refl. reflexivity.
+    + unfold s_or_assoc_r3. rewrite s_trans_refl. cbn [obind].
+      unfold s_mp, s_or_l, s_imp_refl, k_or. rewrite core_eqb_refl. reflexivity.
+  - destruct cl; [congruence|discriminate].
+  - cbn. unfold i1, i2. repeat split; lia.
+  - intros q [<-|[<-|[]]]; rewrite map_length; unfold cl, i1, i2; rewrite !app_length; cbn [length]; rewrite app_length; cbn [length]; lia.
+Qed.
+
+Theorem s_trivial_spec : forall cl, Forall nz cl -> is_trivial (mkset cl) = true ->
+  s_trivial cl = Some (clause_core cl).
+Proof.
+  intros cl Hnz Ht.
+  apply is_trivial_true_spec in Ht as (x & Hx1 & Hx2).
+  apply (proj1 (mkset_in _ _)) in Hx1. apply (proj1 (mkset_in _ _)) in Hx2.
+  assert (Hx0 : x <> 0%Z) by (rewrite Forall_forall in Hnz; apply (Hnz x Hx1)).
+  unfold s_trivial.
+  destruct (find_pair 0 cl) as [[[[i1 i2] x1] x2]|] eqn:Ef.
+  2: { exfalso. exact (find_pair_complete cl 0 x Hx1 Hx2 Hx0 Ef). }
+  apply find_pair_some in Ef as (A & B & C & Ecl & E1 & E2 & Ex2). cbn [plus] in E1. subst i1 i2 x2.
+  rewrite (proj2 (lits_ok_spec cl) Hnz). cbn [negb].
+  assert (Hx1nz : x1 <> 0%Z).
+  { rewrite Forall_forall in Hnz. apply (Hnz x1). rewrite Ecl. apply in_app_iff. right. cbn; auto. }
+  destruct (A ++ B ++ C) as [|r0 R] eqn:ER.
+  - (* the clause is exactly the pair *)
+    apply app_eq_nil in ER as [-> ER]. apply app_eq_nil in ER as [-> ->]. cbn [app] in Ecl. subst cl.
+    destruct x1 as [|q|q]; [congruence| |]; reflexivity.
+  - pose proof (trivial_general A B C x1 Hx1nz) as G. rewrite ER in G. specialize (G ltac:(discriminate)).
+    cbv zeta in G. rewrite <- Ecl in G.
+    assert (H3 : exists c1 c2 c3 t, cl = c1 :: c2 :: c3 :: t).
+    { assert (3 <= length cl).
+      { rewrite Ecl, app_length. cbn [length]. rewrite app_length. cbn [length].
+        assert (length (A ++ B ++ C) = S (length R)) by (rewrite ER; reflexivity).
+        rewrite !app_length in H. lia. }
+      destruct cl as [|c1 [|c2 [|c3 t]]]; cbn in H; try lia. eauto. }
+    destruct H3 as (c1 & c2 & c3 & t & E3).
+    rewrite E3 at 1. cbv iota. exact G.
+Qed.
+
+(** the model's helper conclusions satisfy the helper specs: nothing is left to assume *)
+Lemma model_simplify_spec : forall cl x, cl <> [] -> Forall nz cl ->
+  simplify_pf model_pieces cl x = k_equiv (clause_core cl) (clause_core (simplify_clause cl x)).
+Proof. intros. cbn [simplify_pf model_pieces]. rewrite s_simplify_spec by auto. reflexivity. Qed.
+
+Lemma model_merge_spec : forall l r, l <> [] -> r <> [] ->
+  merge_pf model_pieces l r = k_equiv (k_or (clause_core l) (clause_core r)) (clause_core (l ++ r)).
+Proof. intros. cbn [merge_pf model_pieces]. rewrite s_merge_conc by auto. reflexivity. Qed.
+
+Lemma model_trivial_spec : forall cl, Forall nz cl -> is_trivial (mkset cl) = true ->
+  trivial_pf model_pieces cl = clause_core cl.
+Proof. intros. cbn [trivial_pf model_pieces]. rewrite s_trivial_spec by auto. reflexivity. Qed.
